@@ -64,6 +64,8 @@ type Obligation struct {
 	Solver  string
 	TimeS   float64
 	Model   string
+	Relaxed bool // model comes from the context without quantified facts (candidate only)
+	Cross   string // thorough tier: verdicts of the other solvers
 	Detail  string
 }
 
